@@ -1012,3 +1012,78 @@ def xl_call(fn, a):
     finally:
         X.RunInfo, X.partial, X._xarray_dataset, X._data_loader = saved
         del X.sorted
+
+
+# ---- pipefunc/map/xarray.py::xarray_dataset_from_results (C19: the twin entry point) ----------------------------------------
+PipeXV = TRec("PipeXV", {"pid": TObj, "defaults": TObj})
+PipeXV.identity = "pid"
+ResultsXV = TRec("ResultsXV", {"rid": TObj})
+ResultsXV.identity = "rid"
+xf_mapspecs = Contract("pipefunc/_pipeline/_base.py::PipeXV.mapspecs", params={"self": PipeXV}, returns=TObj, trusted=True,
+                       pure=True, note="the MapSpecs of the pipeline")
+xf_keys = Contract("builtins::ResultsXV.keys", params={"self": ResultsXV}, returns=TObj, trusted=True, pure=True,
+                   note="the names of the results of a run")
+xf_partial = Contract("functools::partial", params={"func": TObj, "data": ResultsXV}, returns=TObj, trusted=True, pure=True,
+                      note="functools.partial(_data_loader, data=...): the loader that reads each value from the results")
+
+
+def _xf_ensures(S, a, r, post):
+    if not S.symbolic:
+        return {"built by _xarray_dataset from the pipeline's MapSpecs, defaults | inputs, the results' loader and all result "
+                "names, sorted": r == ("dataset", ("mapspecs", a.pipeline.pid), ("or", a.pipeline.defaults.tag, a.inputs),
+                                       ("partial", "_data_loader", a.results.rid), ("sorted", ("keys", a.results.rid)),
+                                       a.load_intermediate)}
+    from pyvc.types import Val
+    import z3
+    loader = S.uf("fn:partial", TObj, Val(TObj, z3.Const("global:_data_loader", TObj.sort())), a.results)
+    names = S.uf("fn:sorted", TSeq(TStr), S.uf("fn:ResultsXV.keys", TObj, a.results))
+    return {"built by _xarray_dataset from the pipeline's MapSpecs, defaults | inputs, the results' loader and all result "
+            "names, sorted": S.eq(r, S.uf("fn:_xarray_dataset", TObj, S.uf("fn:PipeXV.mapspecs", TObj, a.pipeline),
+                                          S.uf("spec:or", TObj, a.pipeline.defaults, a.inputs), loader, names,
+                                          a.load_intermediate))}
+
+
+xr_from_results = Contract(
+    f"{XR}::xarray_dataset_from_results",
+    params={"inputs": TObj, "results": ResultsXV, "pipeline": PipeXV, "load_intermediate": TBool},
+    defaults={"load_intermediate": True}, returns=TObj, ensures=_xf_ensures, locals_={"_data_loader": TObj},
+)
+XR_FROM = [xf_mapspecs, xf_keys, xl_sorted, xf_partial, xl_dataset, xr_from_results]
+
+
+class _TagDict:
+    """A stand-in for a dict that is only handed on: `a | b` is recorded, not computed."""
+
+    def __init__(self, tag):
+        self.tag = tag
+
+    def __or__(self, other):
+        return ("or", self.tag, other)
+
+    def __eq__(self, other):
+        return isinstance(other, _TagDict) and self.tag == other.tag
+
+    __hash__ = None  # type: ignore[assignment]
+
+
+def xf_gen(rng, tier):
+    from types import SimpleNamespace as NS
+    for q in range(200 if tier == "quick" else 2000):
+        yield {"inputs": ("inputs", q), "results": NS(rid=q, keys=lambda q=q: ("keys", q)),
+               "pipeline": NS(pid=q, defaults=_TagDict(("defaults", q)), mapspecs=lambda q=q: ("mapspecs", q)),
+               "load_intermediate": rng.random() < 0.5}
+
+
+def xf_call(fn, a):
+    import pipefunc.map.xarray as X
+    saved = (X.partial, X._xarray_dataset, X._data_loader)
+    X.partial = lambda f, data: ("partial", f, data.rid)
+    X._data_loader = "_data_loader"
+    X._xarray_dataset = lambda mapspecs, inputs, data_loader, output_names, load_intermediate=True: (
+        "dataset", mapspecs, inputs, data_loader, output_names, load_intermediate)
+    X.sorted = lambda xs: ("sorted", xs)
+    try:
+        return fn(a["inputs"], a["results"], a["pipeline"], load_intermediate=a["load_intermediate"])
+    finally:
+        X.partial, X._xarray_dataset, X._data_loader = saved
+        del X.sorted
